@@ -326,6 +326,7 @@ class World:
         w.k = 0
         w.ops, w.opidx, w.crash_at, w.before_push, w.current = [], 0, None, {}, None
         w.fcount, w.cmdlog, w.tid, w.cmd_fault, w.cred_url, w.faulted = 0, [], 0, None, None, False
+        w.fail_cmd = None
         w.pmap = {}
         w.rng_eval = random.Random(1)
         w.init_branches = snap['branches']
